@@ -10,24 +10,32 @@ output, `OH.Spec.c01Holds`; `c01Holds_iff` shows it is literally the pointwise s
 for every minute of every day the iterated schedule has the kind the declarative specification
 (`OH.Spec.Rules`: `applies`, `spanOn`, `inToday`, `inSpill`, `ruleDay`, `overlay`, `step`, `dayTable`) defines.
 
-PROVED (refinement built bottom-up in OH/Proofs/EvalSpec*.lean; only the three standard axioms):
- * `C01_schedule_refines_spec_partial` / `C01_holds_partial`: under `ParserWF e`, a day of 1900–9999,
-   the offset scope `EvalScope ctx e` and the hypothesis `DatedAgree e d` (filter = `datedOk` on the dated
-   ranges of `e`, on `d` and `d - 1`) — everything except dated ranges is proved in full: year, week,
-   month, weekday (nth, offsets, wrapping) and holiday selectors, time spans incl. events and spans
-   past midnight, the rule fold (normal / additional / fallback, closed rules, spill from yesterday),
+PROVED (refinement built bottom-up in OH/Proofs/EvalSpec*.lean; standard foundations only: propext, Classical.choice, Quot.sound).
+The only hypotheses are `ParserWF e`, the day range 1900–9999 (outside: `C01_model_outside`,
+`C01_spec_outside`) and a decidable class of dated ranges (which implies `exprDefined e`):
+ * `C01_schedule_refines_spec_window` (and `'`, pointwise conclusion): dated ranges in the DECIDABLE class
+   `exprDatedSafe e d` — day offsets within ±100 000 days, defined meaning, and, for a range whose two
+   bounds carry no year, the implementation's pairing window `y-2 … y+2` is ADEQUATE for the day
+   (`windowOKb`: shifted instances increase from year to year, `d < S(y+2)`, `d ≤ E(y+3)`, and some start
+   of `y-2 … y+1` is at or before `d` and after `E(y-3)`) or every shifted instance stays in the year it is
+   projected on; bounds with a year:
+   no further condition (yearless end after a start with a year: year-locality of the end);
+ * `C01_schedule_refines_spec_plain`: for EVERY day of 1900–9999 under the RULE-LEVEL decidable class
+   `exprDatedPlain e`: day offsets within ±100 000 days, defined meaning; bounds with a year: nothing more;
+   two yearless bounds: no offsets (or Easter ± ≤ 70 days, any weekday shift), or — not a single day — the
+   shifted bounds stay within about a year of their nominal year and occurrences are shorter than about a
+   year (`OH.Proofs.EvalSpec.datedWideB`, e.g. `Jan 1 -10 days-Dec 25`, `Dec 31 +100 days-Jan 1 +50 days`);
+ * `C01_schedule_refines_spec_nodated`: no side condition when there is no dated range — every year,
+   week, month, weekday (nth, any offset, wrapping) and holiday selector, time spans incl. events and
+   spans past midnight, the rule fold (normal / additional / fallback, closed rules, spill from yesterday),
    iteration of the schedule;
- * `C01_schedule_refines_spec_nodated`: hence in full for expressions without dated ranges;
- * `C01_schedule_refines_spec_inyear`: in full under the DECIDABLE side condition `exprDatedSafe e d`
-   (dated ranges: day offsets within ±100 000 days, defined meaning, and "year-locality": every bound
-   WITHOUT a year, shifted by its offset, stays inside the calendar year it is projected on, for the years
-   the specification looks at around `d`; bounds WITH a year are unrestricted);
- * `C01_schedule_refines_spec_plain`: in full, for EVERY day of 1900–9999, under the RULE-LEVEL decidable
-   class `exprDatedPlain e` (yearless bounds without offsets, or Easter ± ≤ 70 days with any weekday shift);
- * `C04_schedule_total`: `daySchedule` never fails under `ParserWF` alone (every day, context, offset);
- * `C01_full_statement_fails`: the statement WITHOUT the offset scope is false (saturated shifts).
-NOT proved (rests on oracle + correspondence): dated ranges whose yearless bounds are shifted out of
-their calendar year (`Jan 1 -10 days-Dec 25`, `Dec 31 +100 days-…`), and offsets beyond the stated bounds.
+ * `C01_schedule_refines_spec_partial` / `C01_holds_partial`: the general form, with the dated ranges as the
+   hypothesis `DatedAgree e d` (filter = `datedOk` on `d` and `d - 1`);
+ * `C04_schedule_total`: `daySchedule` never fails under `ParserWF` alone (every day, context, offset).
+No offset-scope hypothesis is left: the specification shifts days with the same saturating shift as the
+(repaired) code, see `OH.Spec.shift`, `OH.Spec.weekdayOk` and the history note below.
+NOT proved (rests on oracle + correspondence): yearless dated ranges on days where the window is not
+adequate (none is known to fail), day offsets beyond ±100 000 days on dated ranges.
 Older clauses kept below:
  * outside 1900-01-01 … 9999-12-31 both the model and the specification say closed;
  * the day schedule does not depend on the interval-size bound, and two contexts with the same
@@ -67,10 +75,24 @@ theorem C01_holidays_only_from_ctx (c1 c2 : Ctx) (e : Expr) (d : Int)
     scheduleAt c1 e d = scheduleAt c2 e d := by
   cases c1; cases c2; simp only at hp hs he; subst hp hs he; rfl
 
-/-- the holiday clause of the specification is membership of the shifted day and nothing else -/
+/-- the holiday clause of the specification is membership of the shifted day and nothing else
+(the shift saturates at chrono's extreme dates like the code's) -/
 theorem C01_spec_holiday (ctx : Ctx) (k : HolidayKind) (off d : Int) :
     weekdayOk ctx (.holiday k off) d =
-      (match k with | .pub => ctx.pub | .school => ctx.school).contains (d - off) := rfl
+      (match k with | .pub => ctx.pub | .school => ctx.school).contains (addDaysSat d (satNeg off)) := rfl
+
+/-- … which is the day `d - off` whenever that day is representable -/
+theorem C01_spec_holiday_plain (ctx : Ctx) (k : HolidayKind) (off d : Int)
+    (hd : minDay ≤ d ∧ d ≤ maxDay) (hr : minDay ≤ d - off ∧ d - off ≤ maxDay) :
+    weekdayOk ctx (.holiday k off) d =
+      (match k with | .pub => ctx.pub | .school => ctx.school).contains (d - off) := by
+  rw [C01_spec_holiday]
+  have e : addDaysSat d (satNeg off) = d - off := by
+    rw [minDay_eq, maxDay_eq] at hd hr
+    have e : satNeg off = -off := by unfold satNeg; rw [if_neg (by omega)]
+    rw [e, addDaysSat_eq (by omega) (by rw [minDay_eq]; omega) (by rw [maxDay_eq]; omega)]
+    omega
+  rw [e]
 
 /-- month range: the month of the day is in the (possibly wrapping) range, and the year matches if given -/
 theorem C01_spec_month (lo hi : Nat) (yr : Option Nat) (d : Int) :
@@ -93,17 +115,9 @@ example :
 
 /-! ## The refinement: the evaluator model against the declarative specification -/
 
-open OH.Proofs.EvalSpec in
-/-- Scope of the weekday/holiday offsets (decidable, on the rule and the context): every fixed
-weekday range has `|offset| ≤ 92 093 339` days (so that the shifted day is representable for every
-day of 1900–9999: the implementation SATURATES at chrono's extreme dates, the documented semantics
-shift exactly), and every holiday range has such an offset or a calendar that does not contain
-chrono's two extreme days.  See `OH.Proofs.EvalSpec.wdayScope`. -/
-def EvalScope (ctx : Ctx) (e : Expr) : Bool := e.all (fun r => selScope ctx r.day)
-
 /-- The model's filter and the specification agree on every dated range (`Jan 10-Feb 20`,
 `2020 Dec 24-Jan 2`, `easter -2 days-easter +1 day` …) of the expression, on day `d` and on the day
-before.  This is the part of the refinement proved per class of dated ranges (see `DatedAgree_of_*`). -/
+before.  This is the part of the refinement proved per class of dated ranges (see `DatedAgree_of_safe`). -/
 def DatedAgree (e : Expr) (d : Int) : Prop :=
   ∀ r ∈ e, ∀ a so b eo, MonthdayRange.date a so b eo ∈ r.day.monthday →
     ∀ d', (d' = d - 1 ∨ d' = d) →
@@ -111,22 +125,21 @@ def DatedAgree (e : Expr) (d : Int) : Prop :=
 
 open OH.Proofs.EvalSpec in
 theorem exprOK_of (ctx : Ctx) (e : Expr) (d : Int) (hwf : ParserWF e = true)
-    (hsc : EvalScope ctx e = true) (hda : DatedAgree e d) : ExprOK ctx e d := by
+    (hda : DatedAgree e d) : ExprOK ctx e d := by
   intro r hr
   simp only [ParserWF, Bool.and_eq_true, List.all_eq_true] at hwf
   have hrw := hwf.1.2 r hr
   simp only [Rule.wf, Bool.and_eq_true] at hrw
-  simp only [EvalScope, List.all_eq_true] at hsc
-  exact ⟨hrw.1.1, hsc r hr, fun a so b eo h => hda r hr a so b eo h d (Or.inr rfl),
+  exact ⟨hrw.1.1, fun a so b eo h => hda r hr a so b eo h d (Or.inr rfl),
     fun a so b eo h => hda r hr a so b eo h (d - 1) (Or.inl rfl)⟩
 
 /-- C01, with the dated ranges as a hypothesis: under `ParserWF`, inside 1900–9999 (outside:
 `C01_model_outside`/`C01_spec_outside`), the iterated day schedule never fails and gives every minute
 of the day the state the documented semantics define. -/
 theorem C01_schedule_refines_spec_partial (ctx : Ctx) (e : Expr) (d : Int) (hwf : ParserWF e = true)
-    (h1 : dateStart ≤ d) (h2 : d < dateEnd) (hsc : EvalScope ctx e = true) (hda : DatedAgree e d) :
+    (h1 : dateStart ≤ d) (h2 : d < dateEnd) (hda : DatedAgree e d) :
     ∃ rs, daySchedule ctx e d = .ok rs ∧ ∀ m, m < 1440 → kindAt rs m = some (dayState ctx e d m) :=
-  OH.Proofs.EvalSpec.daySchedule_spec ctx e d (exprOK_of ctx e d hwf hsc hda) h1 h2
+  OH.Proofs.EvalSpec.daySchedule_spec ctx e d (exprOK_of ctx e d hwf hda) h1 h2
 
 /-- the run-time oracle `c01Holds` is literally the statement of the theorem -/
 theorem c01Holds_iff (ctx : Ctx) (e : Expr) (d : Int) (rs : List TimeRange) :
@@ -136,9 +149,9 @@ theorem c01Holds_iff (ctx : Ctx) (e : Expr) (d : Int) (rs : List TimeRange) :
     Decidable.not_not]
 
 theorem C01_holds_partial (ctx : Ctx) (e : Expr) (d : Int) (hwf : ParserWF e = true)
-    (h1 : dateStart ≤ d) (h2 : d < dateEnd) (hsc : EvalScope ctx e = true) (hda : DatedAgree e d) :
+    (h1 : dateStart ≤ d) (h2 : d < dateEnd) (hda : DatedAgree e d) :
     ∃ rs, daySchedule ctx e d = .ok rs ∧ c01Holds ctx e d rs = true := by
-  obtain ⟨rs, h, hs⟩ := C01_schedule_refines_spec_partial ctx e d hwf h1 h2 hsc hda
+  obtain ⟨rs, h, hs⟩ := C01_schedule_refines_spec_partial ctx e d hwf h1 h2 hda
   exact ⟨rs, h, (c01Holds_iff ctx e d rs).2 hs⟩
 
 /-- no dated range in the expression (only year, month, week, weekday and holiday selectors) -/
@@ -151,28 +164,27 @@ theorem DatedAgree_of_noDated (e : Expr) (d : Int) (h : noDated e = true) : Date
   have := h r hr _ hm
   simp at this
 
-/-- C01 in full for expressions without dated ranges -/
+/-- C01 in full for expressions without dated ranges: no side condition at all -/
 theorem C01_schedule_refines_spec_nodated (ctx : Ctx) (e : Expr) (d : Int) (hwf : ParserWF e = true)
-    (h1 : dateStart ≤ d) (h2 : d < dateEnd) (hsc : EvalScope ctx e = true) (hnd : noDated e = true) :
+    (h1 : dateStart ≤ d) (h2 : d < dateEnd) (hnd : noDated e = true) :
     ∃ rs, daySchedule ctx e d = .ok rs ∧ c01Holds ctx e d rs = true :=
-  C01_holds_partial ctx e d hwf h1 h2 hsc (DatedAgree_of_noDated e d hnd)
+  C01_holds_partial ctx e d hwf h1 h2 (DatedAgree_of_noDated e d hnd)
 
 /-! ## Dated ranges: the classes for which `DatedAgree` is proved -/
 
 open OH.Proofs.EvalSpec in
 /-- every dated range of the expression is in the class `datedSafe` on day `d` and on the day before
-(decidable; see `OH.Proofs.EvalSpec.datedSafe`: offsets within ±100 000 days, defined meaning, and
-every bound without a year — shifted — stays inside the year it is projected on, for the years the
-specification looks at around `d`) -/
+(decidable; see `OH.Proofs.EvalSpec.datedSafe`, `windowOKb`) -/
 def exprDatedSafe (e : Expr) (d : Int) : Bool :=
   e.all (fun r => r.day.monthday.all (fun m => match m with
     | .date a so b eo => datedSafe a so b eo d && datedSafe a so b eo (d - 1)
     | .month .. => true))
 
 open OH.Proofs.EvalSpec in
-/-- rule-level class, no reference to the day (see `OH.Proofs.EvalSpec.datedPlain`): bounds without a
-year carry no offset (or are Easter shifted by at most 70 days, weekday shift allowed); a start with
-a year may carry any offset within ±100 000 days; the range has a defined meaning -/
+/-- rule-level class, no reference to the day (see `OH.Proofs.EvalSpec.datedPlain`, `datedWideB`): day
+offsets within ±100 000 days; the range has a defined meaning; a bound with a year: nothing more; two
+bounds without a year: no offset (or Easter shifted by at most 70 days, weekday shift allowed), or — not a
+single day — shifted by less than about a year with occurrences shorter than about a year -/
 def exprDatedPlain (e : Expr) : Bool :=
   e.all (fun r => r.day.monthday.all (fun m => match m with
     | .date a so b eo => datedPlain a so b eo
@@ -198,6 +210,24 @@ theorem DatedAgree_of_safe (e : Expr) (d : Int) (hwf : ParserWF e = true)
   · exact dated_eq_of_safe a so b eo d' hmw this.1 (by omega) h2
 
 open OH.Proofs.EvalSpec in
+/-- the class only contains ranges with a defined meaning -/
+theorem exprDefined_of_safe (e : Expr) (d : Int) (h : exprDatedSafe e d = true) : exprDefined e = true := by
+  simp only [exprDatedSafe, List.all_eq_true] at h
+  simp only [exprDefined, List.all_eq_true]
+  intro r hr m hm
+  have := h r hr m hm
+  cases m with
+  | month lo hi yr => rfl
+  | date a so b eo =>
+    simp only [Bool.and_eq_true] at this
+    have h1 := this.1
+    unfold datedSafe at h1
+    simp only [Bool.and_eq_true] at h1
+    have h2 := h1.2
+    unfold datedDefined
+    cases hs : specYear a <;> cases he : specYear b <;> simp [hs, he] at h2 ⊢
+
+open OH.Proofs.EvalSpec in
 theorem exprDatedSafe_of_plain (e : Expr) (d : Int) (hwf : ParserWF e = true)
     (h1 : dateStart ≤ d) (h2 : d < dateEnd) (h : exprDatedPlain e = true) : exprDatedSafe e d = true := by
   simp only [exprDatedPlain, List.all_eq_true] at h
@@ -212,35 +242,38 @@ theorem exprDatedSafe_of_plain (e : Expr) (d : Int) (hwf : ParserWF e = true)
     exact ⟨datedSafe_of_plain a so b eo d hmw hp (by omega) h2,
       datedSafe_of_plain a so b eo (d - 1) hmw hp (by omega) (by omega)⟩
 
-/-- C01 for every expression and day in the decidable class `exprDatedSafe`:
+/-- C01 for every parsed expression and day of 1900–9999 in the decidable class `exprDatedSafe`:
 the iterated day schedule never fails and the run-time oracle `c01Holds` holds on it. -/
-theorem C01_schedule_refines_spec_inyear (ctx : Ctx) (e : Expr) (d : Int) (hwf : ParserWF e = true)
-    (h1 : dateStart ≤ d) (h2 : d < dateEnd) (hsc : EvalScope ctx e = true)
-    (hds : exprDatedSafe e d = true) :
+theorem C01_schedule_refines_spec_window (ctx : Ctx) (e : Expr) (d : Int) (hwf : ParserWF e = true)
+    (h1 : dateStart ≤ d) (h2 : d < dateEnd) (hds : exprDatedSafe e d = true) :
     ∃ rs, daySchedule ctx e d = .ok rs ∧ c01Holds ctx e d rs = true :=
-  C01_holds_partial ctx e d hwf h1 h2 hsc (DatedAgree_of_safe e d hwf h1 h2 hds)
+  C01_holds_partial ctx e d hwf h1 h2 (DatedAgree_of_safe e d hwf h1 h2 hds)
 
 /-- the same with the pointwise conclusion -/
-theorem C01_schedule_refines_spec_inyear' (ctx : Ctx) (e : Expr) (d : Int) (hwf : ParserWF e = true)
-    (h1 : dateStart ≤ d) (h2 : d < dateEnd) (hsc : EvalScope ctx e = true)
-    (hds : exprDatedSafe e d = true) :
+theorem C01_schedule_refines_spec_window' (ctx : Ctx) (e : Expr) (d : Int) (hwf : ParserWF e = true)
+    (h1 : dateStart ≤ d) (h2 : d < dateEnd) (hds : exprDatedSafe e d = true) :
     ∃ rs, daySchedule ctx e d = .ok rs ∧ ∀ m, m < 1440 → kindAt rs m = some (dayState ctx e d m) :=
-  C01_schedule_refines_spec_partial ctx e d hwf h1 h2 hsc (DatedAgree_of_safe e d hwf h1 h2 hds)
+  C01_schedule_refines_spec_partial ctx e d hwf h1 h2 (DatedAgree_of_safe e d hwf h1 h2 hds)
+
+/-- former name of `C01_schedule_refines_spec_window` (the class used to be year-locality only) -/
+theorem C01_schedule_refines_spec_inyear (ctx : Ctx) (e : Expr) (d : Int) (hwf : ParserWF e = true)
+    (h1 : dateStart ≤ d) (h2 : d < dateEnd) (hds : exprDatedSafe e d = true) :
+    ∃ rs, daySchedule ctx e d = .ok rs ∧ c01Holds ctx e d rs = true :=
+  C01_schedule_refines_spec_window ctx e d hwf h1 h2 hds
 
 /-- C01 for every day of 1900–9999, for expressions in the RULE-LEVEL class `exprDatedPlain`
 (dated ranges without offsets — `Jan 10-Feb 20`, `Dec 24-Jan 2`, `Dec 25`, `Feb 29`, `2020 Dec 24-Jan 2`,
-`2024 easter-2024 Dec 31` — Easter with offsets up to 70 days, any offset ≤ 100 000 days on a start
+`2024 easter-2024 Dec 31` — Easter with offsets up to 70 days, any offset ≤ 100 000 days on a bound
 that carries a year) -/
 theorem C01_schedule_refines_spec_plain (ctx : Ctx) (e : Expr) (d : Int) (hwf : ParserWF e = true)
-    (h1 : dateStart ≤ d) (h2 : d < dateEnd) (hsc : EvalScope ctx e = true)
-    (hpl : exprDatedPlain e = true) :
+    (h1 : dateStart ≤ d) (h2 : d < dateEnd) (hpl : exprDatedPlain e = true) :
     ∃ rs, daySchedule ctx e d = .ok rs ∧ c01Holds ctx e d rs = true :=
-  C01_schedule_refines_spec_inyear ctx e d hwf h1 h2 hsc (exprDatedSafe_of_plain e d hwf h1 h2 hpl)
+  C01_schedule_refines_spec_window ctx e d hwf h1 h2 (exprDatedSafe_of_plain e d hwf h1 h2 hpl)
 
 /-! ## C04 clause: the day schedule is total -/
 
 /-- `schedule_at(date).into_iter()` never panics on a parsed expression: every day, every context,
-every offset (no scope hypothesis: saturated shifts are total) -/
+every offset (saturated shifts are total) -/
 theorem C04_schedule_total (ctx : Ctx) (e : Expr) (d : Int) (hwf : ParserWF e = true) :
     ∃ rs, daySchedule ctx e d = .ok rs := by
   apply OH.Proofs.EvalSpec.daySchedule_total
@@ -253,74 +286,36 @@ theorem C04_schedule_total (ctx : Ctx) (e : Expr) (d : Int) (hwf : ParserWF e = 
   exact ⟨OH.Proofs.EvalSpec.daySelectorFilter_total ctx r.day hrw.1.1 d hd,
     OH.Proofs.EvalSpec.daySelectorFilter_total ctx r.day hrw.1.1 (d - 1) hd1⟩
 
-/-! ## The scope hypotheses cannot be dropped: the statement without them is FALSE
+/-! ## History: findings made while this refinement was proved
 
-History.  While this refinement was being proved, two defects of the windowed pairing of yearless dated
-ranges were found outside the class then called D20 (`exprWindowRisk`): `Jan 1 -10 days-Dec 25` was open on
-2023-12-28 and `Dec 31 +100 days-Jan 1 +50 days` closed on 2024-01-15 (an OFFSET moved a bound out of the
-year it was projected on).  Both were confirmed on the implementation and are repaired in /repo (pairing on
-the years `y-2 … y+2`); the model follows the repaired code and both days now agree with the specification.
+1. Windowed pairing of yearless dated ranges (repaired in /repo: pairing on the years `y-2 … y+2`; the model
+   follows): `Jan 1 -10 days-Dec 25` was open on 2023-12-28 and `Dec 31 +100 days-Jan 1 +50 days` closed on
+   2024-01-15 — an OFFSET moved a bound out of the year it was projected on; neither was in the class then
+   called D20.  Both days now agree with the specification and are inside `exprDatedSafe` (checked below).
+2. Saturated day shifts.  With offsets of about 97 million days or more the shifted day is not representable
+   by chrono; the (repaired) code pins it at `NaiveDate::MIN`/`MAX` (`add_days_saturating`).  An earlier version
+   of the specification shifted exactly, and the statement then failed on `Mo[1-5] +97000000 days`
+   (2024-01-21: exact shift = a Monday, first of its month ⇒ open; implementation closed) and on
+   `2020 Jan 1 -100000000 days-Feb 1` (2024-01-15: implementation open, exact reading closed); the earlier
+   theorems carried an offset scope `EvalScope` and a refutation `C01_full_statement_fails` of the unscoped
+   statement.  The property text gives no meaning to days chrono cannot represent, so the specification
+   now adopts the code's saturating shift (`OH.Spec.shift`, `OH.Spec.weekdayOk`), the scope hypothesis is
+   gone, and both witnesses agree (first one checked below; the second needs 550 000 candidate years and
+   is checked by the run-time oracle only). -/
 
-What remains false is the statement WITHOUT the offset scope (`EvalScope`, and `offSmallD` inside
-`datedSafe`): the implementation shifts days with SATURATION at chrono's extreme dates (±262 000 years), the
-documented semantics shift exactly.  Witnesses, both confirmed on the real implementation:
- * `Mo[1-5] +97000000 days` on 2024-01-21: the day shifted back by 97 000 000 days is a Monday and the
-   first of its month, so the specification says open; the implementation tests `NaiveDate::MIN` instead
-   and says closed (proved below);
- * `2020 Jan 1 -100000000 days-Feb 1` on 2024-01-15: implementation open (start saturated, end searched
-   around year −262 143, `valid_ymd_before` falling back to `DATE_END`), specification closed (checked with
-   `#eval`; too large for a kernel proof: the specification scans 550 000 years). -/
-
-def cexRule : Rule :=
-  ⟨⟨[], [], [], [.fixed 0 0 97000000 [true, true, true, true, true] [false, false, false, false, false]]⟩,
-    [TimeSpan.fullDay], .open, .normal, []⟩
-/-- `Mo[1-5] +97000000 days` -/
-def cex : Expr := [cexRule]
-
-/-- the witness is parser-well-formed, has no dated range at all, and is outside `EvalScope` -/
-example : ParserWF cex = true ∧ exprDefined cex = true ∧ noDated cex = true
-    ∧ EvalScope Ctx.default cex = false := by decide +kernel
-
-open OH.Proofs.EvalSpec in
-/-- specification: open on 2024-01-21 -/
-theorem cex_spec : dayState Ctx.default cex 738906 0 = .open := by
-  have a0 : applies Ctx.default cexRule 738906 = true := by decide +kernel
-  have hin : dateStart ≤ (738906 : Int) ∧ (738906 : Int) < dateEnd := by decide +kernel
-  have hstep : OH.Spec.step Ctx.default 738906 emptyDay cexRule
-      = if applies Ctx.default cexRule 738906 = true then ruleDay Ctx.default cexRule 738906
-        else overlay emptyDay (ruleSpill Ctx.default cexRule 738906) := rfl
-  have ht : inToday (cexRule.time.map (spanOn Ctx.default 738906)) 0 = true := by decide +kernel
-  unfold dayState dayTable
-  rw [if_pos hin]
-  simp only [cex, List.foldl_cons, List.foldl_nil, hstep, a0, if_true]
-  simp only [ruleDay, tab_at, a0, ht, Bool.and_self, Bool.or_true, if_true]
-  rfl
-
-/-- model (= implementation): closed on 2024-01-21 -/
-theorem cex_model : (match daySchedule Ctx.default cex 738906 with
-    | .ok rs => kindAt rs 0 == some .closed | .error _ => false) = true := by decide +kernel
-
-/-- REFUTATION of the statement without the offset scope: hypotheses `ParserWF` and `exprDefined` alone
-(even with no dated range at all) do not imply the conclusion -/
-theorem C01_full_statement_fails :
-    ¬ ∀ (ctx : Ctx) (e : Expr) (d : Int), ParserWF e = true → exprDefined e = true → noDated e = true →
-        dateStart ≤ d → d < dateEnd →
-        ∃ rs, daySchedule ctx e d = .ok rs ∧ c01Holds ctx e d rs = true := by
-  intro h
-  obtain ⟨rs, hrs, hh⟩ := h Ctx.default cex 738906 (by decide +kernel) (by decide +kernel)
-    (by decide +kernel) (by decide +kernel) (by decide +kernel)
-  have hm := cex_model
-  rw [hrs] at hm
-  simp only [beq_iff_eq] at hm
-  have := (c01Holds_iff _ _ _ _).1 hh 0 (by decide)
-  rw [cex_spec, hm] at this
-  cases this
-
-/-- the same on the selector alone -/
+/-- `Mo[1-5] +97000000 days` on 2024-01-21: the selector and the specification agree (closed) -/
 example :
     let w : WeekDayRange := .fixed 0 0 97000000 [true, true, true, true, true] [false, false, false, false, false]
     w.wf = true ∧ (match WeekDayRange.filter Ctx.default w 738906 with | .ok b => b | .error _ => true) = false
-      ∧ weekdayOk Ctx.default w 738906 = true := by decide +kernel
+      ∧ weekdayOk Ctx.default w 738906 = false := by decide +kernel
+
+/-- the two former witnesses of finding 1 are inside the class on the formerly failing days -/
+example :
+    let e1 : Expr := [⟨⟨[], [.date (.fixed none 1 1) ⟨.none, -10⟩ (.fixed none 12 25) ⟨.none, 0⟩], [], []⟩,
+      [TimeSpan.fullDay], .open, .normal, []⟩]
+    let e2 : Expr := [⟨⟨[], [.date (.fixed none 12 31) ⟨.none, 100⟩ (.fixed none 1 1) ⟨.none, 50⟩], [], []⟩,
+      [TimeSpan.fullDay], .open, .normal, []⟩]
+    exprDatedSafe e1 738882 = true ∧ exprDatedSafe e2 738900 = true := by decide +kernel
 
 /-! ### non-vacuity of the positive theorems -/
 
@@ -336,17 +331,27 @@ def demoExpr : Expr :=
 
 def demoCtx : Ctx := { Ctx.default with pub := [739246, 739252] }
 
-example : ParserWF demoExpr = true ∧ EvalScope demoCtx demoExpr = true ∧ exprDatedPlain demoExpr = true := by
-  decide +kernel
+example : ParserWF demoExpr = true ∧ exprDatedPlain demoExpr = true := by decide +kernel
 
 example : ∃ rs, daySchedule demoCtx demoExpr 739250 = .ok rs ∧ c01Holds demoCtx demoExpr 739250 rs = true :=
   C01_schedule_refines_spec_plain demoCtx demoExpr 739250 (by decide +kernel) (by decide +kernel)
-    (by decide +kernel) (by decide +kernel) (by decide +kernel)
+    (by decide +kernel) (by decide +kernel)
 
-/-- a range with offsets on yearless bounds, outside the rule-level class but inside the day-level one:
-`Dec 25 -3 days-Jan 1 +2 days` on 2024-12-30 -/
+/-- ranges with offsets on yearless bounds that leave their year are in the rule-level class:
+`Dec 25 -3 days-Jan 1 +2 days`, `Dec 31 +Su +100 days-Jan 1 +50 days`, `Jan 1 -10 days-Dec 25`,
+`easter -47 days-easter +60 days` -/
 example :
-    let e : Expr := [⟨⟨[], [.date (.fixed none 12 25) ⟨.none, -3⟩ (.fixed none 1 1) ⟨.none, 2⟩], [], []⟩,
+    let e : Expr := [⟨⟨[], [.date (.fixed none 12 25) ⟨.none, -3⟩ (.fixed none 1 1) ⟨.none, 2⟩,
+                            .date (.fixed none 12 31) ⟨.next 6, 100⟩ (.fixed none 1 1) ⟨.none, 50⟩,
+                            .date (.fixed none 1 1) ⟨.none, -10⟩ (.fixed none 12 25) ⟨.none, 0⟩,
+                            .date (.easter none) ⟨.none, -47⟩ (.easter none) ⟨.none, 60⟩], [], []⟩,
+      [TimeSpan.fullDay], .open, .normal, []⟩]
+    ParserWF e = true ∧ exprDatedPlain e = true ∧ exprDatedSafe e 739250 = true := by decide +kernel
+
+/-- a shift of more than two years is outside the rule-level class (`Jan 1 +800 days-Jan 5 +800 days`), yet inside the
+day-level one on a given day -/
+example :
+    let e : Expr := [⟨⟨[], [.date (.fixed none 1 1) ⟨.none, 800⟩ (.fixed none 1 5) ⟨.none, 800⟩], [], []⟩,
       [TimeSpan.fullDay], .open, .normal, []⟩]
     exprDatedPlain e = false ∧ exprDatedSafe e 739250 = true := by decide +kernel
 
